@@ -2,8 +2,11 @@
 (* The C08 contract as an executable specification.  A server reply script is a sequence of       *)
 (* abstract packages [t |-> type, a |-> attribute] with "eom" marking the end of a server message:  *)
 (*   ack: succeed / fail / negotiate        msg: enc4 / enc3 / other       fmt: 3ok / 2 / 4 / badtype *)
-(*   params: good / notpem / notpkcs1 / trailing / cipher2                  done: final / more         *)
-(*   caps: normal / zero     eed: info / err     env: packsize / db     other: x     eom: x            *)
+(*   params: good / notpem / notpkcs1 / trailing / cipher2 / cipher3 / cipher257 / cipherneg          *)
+(*           (cipher suite 2, 3, 257, -1 instead of 1)                      done: final / more         *)
+(*   caps: normal / subset (another non-zero answer) / zero (all-zero masks) / emptyres, emptyreq      *)
+(*         (the response / request block has a mask of length 0)                                        *)
+(*   eed: info / err     env: packsize / db     other: x     eom: x                                     *)
 (* Delivered(script) is what reaches the login routine: informational EEDs and environment changes   *)
 (* are filtered by the channel (C11), a final DONE is supplied at the end of a message that lacks    *)
 (* one (C03), a PARAMS without a preceding format is a channel error after which nothing more is      *)
@@ -18,9 +21,9 @@ ValidEnc == <<P("ack", "negotiate"), P("msg", "enc4"), P("fmt", "3ok"), P("param
 Attrs(t) == CASE t = "ack" -> {"succeed", "fail", "negotiate"}
               [] t = "msg" -> {"enc4", "enc3", "other"}
               [] t = "fmt" -> {"3ok", "2", "4", "badtype"}
-              [] t = "params" -> {"good", "notpem", "notpkcs1", "trailing", "cipher2"}
+              [] t = "params" -> {"good", "notpem", "notpkcs1", "trailing", "cipher2", "cipher3", "cipher257", "cipherneg"}
               [] t = "done" -> {"final", "more"}
-              [] t = "caps" -> {"normal", "zero"}
+              [] t = "caps" -> {"normal", "subset", "zero", "emptyres", "emptyreq"}
               [] t = "eed" -> {"info", "err"}
               [] t = "env" -> {"packsize", "db"}
               [] OTHER -> {"x"}
@@ -91,8 +94,9 @@ VerdictEnc(D) ==
     IF ~Phase1OK(D) THEN "F"
     ELSE LET k == NextAck(D, 6) IN
          IF k = 0 \/ D[k].a # "succeed" THEN "F"
-         ELSE IF ~Has(D, k + 2) \/ D[k + 1] # P("caps", "normal") \/ ~IsDone(D[k + 2]) THEN "F"
-         ELSE IF k = 6 /\ Len(D) = 8 /\ D[5].a = "final" /\ D[8].a = "final" THEN "S" ELSE "U"
+         ELSE IF ~Has(D, k + 2) \/ D[k + 1].t # "caps" \/ D[k + 1].a = "zero" \/ ~IsDone(D[k + 2]) THEN "F"
+         \* a block without any mask byte is neither a usable answer nor "all-zero capabilities": left open
+         ELSE IF k = 6 /\ Len(D) = 8 /\ D[5].a = "final" /\ D[8].a = "final" /\ D[7].a \in {"normal", "subset"} THEN "S" ELSE "U"
 Verdict(flow, s) == IF flow = "plain" THEN VerdictPlain(Delivered(flow, s)) ELSE VerdictEnc(Delivered(flow, s))
 \* the announced packet size, if the script announces one before the login completes
 \* an announced packet size that the login routine must have seen: announced in a message the peer
